@@ -152,8 +152,15 @@ package fclient
 //@   loop 1: invariant 0 <= idx(1) && idx(1) <= len(kvPairs)
 //@   loop 1: invariant (forall j int :: 0 <= j && j < idx(1) ==> !wkIsMaxAge(kvPairs[j])) ==> expiryTimestamp == wkExpires(ret(Do, 0))
 //@   loop 1: invariant (exists j int :: 0 <= j && j < idx(1) && wkIsMaxAge(kvPairs[j])) ==> (exists j int :: 0 <= j && j < idx(1) && wkIsMaxAge(kvPairs[j]) && expiryTimestamp == wkAgeParse(kvPairs[j])[0] + nowUnix)
+// SRV records: _matrix-fed._tcp is asked first; _matrix._tcp only when that name was reported as not found; a hit or
+// any other failure of the first lookup is the answer
 //@ func lookupSRV
-//@   trusted
+//@   property C16
+//@   nosafety
+//@   calls LookupSRV matrix-fed-first-then-matrix: proto == "tcp" && name == string(serverName) && ((ncalls(LookupSRV) == 0 && service == "matrix-fed") || (ncalls(LookupSRV) == 1 && service == "matrix"))
+//@   calls LookupSRV deprecated-name-only-after-not-found: ncalls(LookupSRV) == 1 ==> (isType(ret(LookupSRV, 2), "*net.DNSError") && ret(LookupSRV, 2).(*net.DNSError).IsNotFound)
+//@   ensures at-most-two-lookups: called(LookupSRV) && ncalls(LookupSRV) <= 2
+//@   ensures answer-is-the-last-lookup: result[0] == ret(LookupSRV, 1) && (result[1] == nil <==> ret(LookupSRV, 2) == nil)
 //@   ensures records-well-formed: forall i int :: 0 <= i && i < len(result[0]) ==> (result[0][i] != nil && len(result[0][i].Target) >= 1)
 //@   assigns nothing
 
